@@ -1161,6 +1161,52 @@ fn native_spec() {
                 println!("SPEC-REPLAY MISMATCH target=requires_owner case=chain {argv:?}: {got:?}, expected {want:?}");
             }
         }
+    } else if target == "help_subtree_copy" {
+        // C12: after build(), the help rendered at the generated `help` level lists exactly the visible subcommands
+        for nested in [false, true] {
+            let mut vis = Command::new("zzvisible").about("zzvisible about");
+            if nested {
+                vis = vis.subcommand(Command::new("zzinnerhid").about("zzinnerhid about").hide(true)).subcommand(Command::new("zzinnervis").about("zzinnervis about"));
+            }
+            let mut cmd = Command::new("p").subcommand(vis).subcommand(Command::new("zzhidden").about("zzhidden about").hide(true));
+            cmd.build();
+            for long in [false, true] {
+                let h = {
+                    let hc = cmd.find_subcommand_mut("help").expect("generated help subcommand");
+                    if long { hc.render_long_help().to_string() } else { hc.render_help().to_string() }
+                };
+                if h.contains("zzhidden") || !h.contains("zzvisible") {
+                    println!("SPEC-REPLAY MISMATCH target=help_subtree_copy case=help level, nested={nested} long={long}: hidden listed={}, visible listed={}", h.contains("zzhidden"), h.contains("zzvisible"));
+                }
+                if nested {
+                    let h2 = {
+                        let hc = cmd.find_subcommand_mut("help").unwrap().find_subcommand_mut("zzvisible").expect("copied subcommand");
+                        if long { hc.render_long_help().to_string() } else { hc.render_help().to_string() }
+                    };
+                    if h2.contains("zzinnerhid") || !h2.contains("zzinnervis") {
+                        println!("SPEC-REPLAY MISMATCH target=help_subtree_copy case=help/zzvisible level long={long}: hidden listed={}, visible listed={}", h2.contains("zzinnerhid"), h2.contains("zzinnervis"));
+                    }
+                }
+            }
+        }
+    } else if target == "env_read" {
+        // C06: a set environment variable supplies the value whatever bytes it holds
+        #[cfg(unix)]
+        {
+            use std::os::unix::ffi::OsStrExt as _;
+            for (var, bytes) in [("CLAP_VERIF_ENV_READ_0", &b"plain"[..]), ("CLAP_VERIF_ENV_READ_1", &b"/tmp/\xE9"[..]), ("CLAP_VERIF_ENV_READ_2", &b"\xff\xfe"[..])] {
+                let val = std::ffi::OsStr::from_bytes(bytes);
+                std::env::set_var(var, val);
+                let cmd = Command::new("p").arg(Arg::new("path").long("path").env(var).default_value("dflt").value_parser(crate::builder::ValueParser::os_string()));
+                let m = cmd.try_get_matches_from(["p"]).expect("parses");
+                let src = m.value_source("path");
+                let raw = m.get_raw("path").and_then(|mut r| r.next().map(|v| v.to_owned()));
+                if src != Some(crate::parser::ValueSource::EnvVariable) || raw.as_deref() != Some(val) {
+                    println!("SPEC-REPLAY MISMATCH target=env_read case=variable set to bytes {bytes:?}: source {src:?}, raw {raw:?}");
+                }
+                std::env::remove_var(var);
+            }
+        }
     } else if target == "subcommand_dispatch_guard" {
         // C09: a value of a multi-value option / positional that spells a subcommand name stays a value (unless subcommand_precedence_over_arg)
         for prec in [false, true] {
